@@ -3,7 +3,8 @@ symbolic-tree (C01..C09) engines, plus the catalogue of harness-defined
 pg.Object classes with typed fields."""
 import pyglove as pg
 
-EVENT_LOG = []      # filled by recording classes / callbacks: (receiver id, updates)
+EVENT_LOG = []      # legacy sink
+EVENT_SINK = [None]  # callable(receiver, field_updates) installed by the running forest
 
 
 @pg.members([
@@ -43,7 +44,9 @@ class Rec(pg.Object):
 
     def _on_change(self, field_updates):
         super()._on_change(field_updates)
-        EVENT_LOG.append((id(self), dict(field_updates)))
+        sink = EVENT_SINK[0]
+        if sink is not None:
+            sink(self, field_updates)
 
 
 @pg.members([
@@ -91,7 +94,7 @@ def gen_node(rng, depth):
 
 
 def gen_value(rng, depth=0, max_depth=3, objects=True, special_floats=True, int_keys=True,
-              tuples=True):
+              tuples=True, tuple_prims=False):
     r = rng.random()
     if depth >= max_depth or r < 0.35:
         k = rng.random()
@@ -107,7 +110,8 @@ def gen_value(rng, depth=0, max_depth=3, objects=True, special_floats=True, int_
         return ['none']
     if r < 0.55:
         return ['list', [gen_value(rng, depth + 1, max_depth, objects, special_floats,
-                                   int_keys, tuples) for _ in range(rng.randint(0, 4))]]
+                                   int_keys, tuples, tuple_prims)
+                         for _ in range(rng.randint(0, 4))]]
     if r < 0.78:
         items, seen = [], set()
         for _ in range(rng.randint(0, 4)):
@@ -116,9 +120,12 @@ def gen_value(rng, depth=0, max_depth=3, objects=True, special_floats=True, int_
                 continue
             seen.add(k)
             items.append([k, gen_value(rng, depth + 1, max_depth, objects, special_floats,
-                                       int_keys, tuples)])
+                                       int_keys, tuples, tuple_prims)])
         return ['dict', items]
     if r < 0.84 and tuples:
+        if tuple_prims:
+            return ['tuple', [gen_value(rng, max_depth, max_depth, False, special_floats)
+                              for _ in range(rng.randint(1, 3))]]
         return ['tuple', [gen_value(rng, depth + 1, max_depth, objects, special_floats,
                                     int_keys, tuples) for _ in range(rng.randint(1, 3))]]
     if not objects:
@@ -167,9 +174,13 @@ def walk(root):
     treats a tuple as an opaque leaf value); they are yielded as sub-roots
     (parent None, key ('tuple', ...))."""
     stack = [(root, None, None, ())]
+    expanded = set()
     while stack:
         node, parent, key, path = stack.pop()
         yield node, parent, key, path
+        if id(node) in expanded:
+            continue            # shared or cyclic: reported by the caller, not re-walked
+        expanded.add(id(node))
         if isinstance(node, pg.Symbolic) and not isinstance(node, pg.Ref):
             try:
                 items = list(node.sym_items())
